@@ -14,8 +14,10 @@ from . import common
 LEVEL = "exploration"
 
 STR_KEYS = ["a", "b", "a.b", "a']['b", "a['b']", "a\"b", "a]", "['x']", "s", "s.a", "", "é", "名", "1", "0.5", "a ",
-            "(1, 2)", "-1", "s['a']", "getattr(s, 'a')", "x', 'y"]
-OTHER_KEYS = [0, 1, 10, -1, 0.5, -2.5, (1, 2), ("a", 1), (1,), ("a.b",)]
+            "(1, 2)", "-1", "s['a']", "getattr(s, 'a')", "x', 'y",
+            "\u00b5", "\u03bc", "\ufb01", "fi", "\u212b", "\u00c5"]     # identifiers that differ only by Unicode normalisation
+OTHER_KEYS = [0, 1, 10, -1, -2, 0.5, -2.5, (1, 2), ("a", 1), (1,), ("a.b",),
+              0.3, 0.1 + 0.2, 0.30000000000000007]                          # floats that differ beyond the 15th significant digit
 SUB_KEYS = ["a", "a.b", 1, "s"]
 
 
@@ -218,7 +220,30 @@ def job_family(_):
                        "what": f"{miss} refs of the large family do not find their own entry", "program": [], "config": {},
                        "case": {"family": N, "miss": miss}})
     hashes = len({hash(k) for k in fam})
-    return {"evaluations": 4 * N, "issues": issues, "family_distinct_hashes": hashes}
+    # structured families: the hash must separate (almost) all distinct paths.  The stored hash is 32 bits wide, so a few
+    # birthday collisions are expected (n^2 / 2^33); systematic collisions (a hash that ignores the order or the position
+    # of the steps) are orders of magnitude above the allowance of 20 x max(1, expected).
+    fams = {"large family": list(fam)}
+    G = 64
+    fams["grid r[i][j]"] = [s[i][j] for i in range(G) for j in range(G)]
+    fams["diagonal r[k][k]"] = [s[k][k] for k in range(3000)]
+    names = [f"n{i}" for i in range(60)]
+    fams["ordered pairs r[a][b]"] = [s[a][b] for a in names for b in names]
+    fams["ordered attribute pairs r.a.b"] = [getattr(getattr(s, a), b) for a in names for b in names]
+    fams["mixed r.a[b] / r[a].b"] = [getattr(s, a)[b] for a in names[:40] for b in names[:40]] + [getattr(s[a], b) for a in names[:40] for b in names[:40]]
+    ev = 4 * N
+    spread = {}
+    for fname, refs_ in fams.items():
+        n = len(refs_)
+        ev += n
+        distinct = len({hash(k) for k in refs_})
+        allowed = int(20 * max(1.0, n * n / 2.0 ** 33))
+        spread[fname] = [n, distinct]
+        if n - distinct > allowed:
+            issues.append({"kind": "violation", "property": "C06", "finding": None,
+                           "what": f"{fname}: {n} distinct paths have only {distinct} distinct hashes (allowance for 32-bit birthday collisions: {allowed})",
+                           "program": [fname], "config": {}, "case": {"family": fname}})
+    return {"evaluations": ev, "issues": issues, "family_distinct_hashes": hashes, "hash_spread": spread}
 
 
 def plan(tier, seed):
@@ -251,7 +276,7 @@ def finish(plan_, results):
            "distinct_nontrivial": r["paths"] + r["exprs"]["distinct_texts"],
            "paths": r["paths"], "pairs_compared": r["pairs"], "pairs_equal": r["eq_true"],
            "dict_entries": r["dicts"]["dict_size"], "expression_trees_built_twice": r["exprs"]["evaluations"],
-           "large_family_refs": r["family"]["evaluations"], "large_family_distinct_hashes": r["family"]["family_distinct_hashes"],
+           "large_family_refs": r["family"]["evaluations"], "large_family_distinct_hashes": r["family"]["family_distinct_hashes"], "hash_spread_paths_vs_distinct_hashes": r["family"]["hash_spread"],
            "exhaustive": True,
            "rule": "all paths (two labels x item/attr steps over the key pool: depth 1-2 full pool, depth 3-4 sub-pool); ALL ordered pairs "
                    "compared; distinct_nontrivial = distinct paths + distinct expression texts",
